@@ -95,6 +95,47 @@ theorem makespanTerm_bounds (ovs : List (List OpVar)) (limit : Nat) (bits : Bits
         rw [Rat.mul_comm]; exact Rat.mul_inv_cancel _ (by grind)
       grind
 
+theorem nat_le_sum_of_mem : ∀ (l : List Nat) (a : Nat), a ∈ l → a ≤ l.sum
+  | [], _, h => by simp at h
+  | b :: t, a, h => by
+      rcases List.mem_cons.mp h with rfl | h
+      · simp
+      · have := nat_le_sum_of_mem t a h; simp only [List.sum_cons]; omega
+
+theorem endSum_pos (ovs : List (List OpVar)) (bits : Bits) (hne : ∃ row ∈ ovs, row ≠ []) : 0 < endSum ovs bits := by
+  obtain ⟨row, hrow, hr⟩ := hne
+  unfold endSum
+  have hmem : (match row.getLast? with
+      | none => 0
+      | some x => (ovs.length + 1) ^ (startOf x bits + x.op.dur)) ∈
+      ovs.map (fun row => match row.getLast? with
+        | none => 0
+        | some x => (ovs.length + 1) ^ (startOf x bits + x.op.dur)) := List.mem_map.mpr ⟨row, hrow, rfl⟩
+  have hle := nat_le_sum_of_mem _ _ hmem
+  have hpos : 0 < (match row.getLast? with
+      | none => 0
+      | some x => (ovs.length + 1) ^ (startOf x bits + x.op.dur)) := by
+    cases hl : row.getLast? with
+    | none => exact absurd (List.getLast?_eq_none_iff.mp hl) hr
+    | some x => exact Nat.pow_pos (by omega)
+  omega
+
+/-- the makespan term of a decoded state is strictly positive as soon as there is a job with an operation -/
+theorem makespanTerm_pos (ovs : List (List OpVar)) (limit : Nat) (bits : Bits) (hd : AllDecoded ovs bits)
+    (hne : ∃ row ∈ ovs, row ≠ []) : 0 < makespanTerm ovs limit bits := by
+  rw [makespanTerm_decoded ovs limit bits hd]
+  have hE := endSum_pos ovs bits hne
+  have hlen : 0 < ovs.length := by
+    obtain ⟨row, hrow, _⟩ := hne
+    exact List.length_pos_of_mem hrow
+  have hM : 0 < maxOptNat ovs limit := by
+    unfold maxOptNat
+    exact Nat.mul_pos hlen (Nat.pow_pos (by omega))
+  have h1 : (0 : Rat) < ((maxOptNat ovs limit : Nat) : Rat) := Rat.natCast_pos.mpr hM
+  have h2 : (0 : Rat) < ((endSum ovs bits : Nat) : Rat) := Rat.natCast_pos.mpr hE
+  rw [Rat.div_def, Rat.one_mul]
+  exact Rat.mul_pos (Rat.inv_pos.mpr h1) h2
+
 /-- Σ of the decoded value indices -/
 def idxSum (ovs : List (List OpVar)) (bits : Bits) : Nat := (ovs.flatten.map (fun x => startOf x bits - x.var.lo)).sum
 
